@@ -25,6 +25,7 @@ struct KCallback final : InlineCore {
   InlineCore* Here(InlineCore& caller) noexcept final {
     auto& c = static_cast<KCore&>(static_cast<BaseCore&>(caller));
     ++called;
+    vp_hb_read(0);
     if (!Intact(c)) torn = 1;
     return nullptr;
   }
@@ -45,10 +46,11 @@ extern "C" void c06k_prologue() {
 // SharedPromise::Set: Store(result); Loop(core, core->SetResult<false>())
 extern "C" void c06k_fulfil() {
   CORE.payload[0] = g_v; CORE.payload[1] = ~g_v;
+  vp_hb_write(0);
   Loop(&CORE, CORE.SetResult());
 }
 static void Observe(KCallback& cb, unsigned i, bool inline_form) {
-  if (!CORE.Empty() && !Intact(CORE)) g_ready_torn = 1;   // SharedFuture::Ready()==true implies the value can be read
+  if (!CORE.Empty()) { vp_hb_read(0); if (!Intact(CORE)) g_ready_torn = 1; }   // SharedFuture::Ready()==true implies the value can be read
   if (inline_form) {
     // detail::SetCallback for shared cores: Loop(caller, caller->SetInline<false>(*callback))
     InlineCore* next = CORE.SetInline(cb);
@@ -57,7 +59,7 @@ static void Observe(KCallback& cb, unsigned i, bool inline_form) {
   } else {
     // Connect / Wait: if (!SetCallback(cb)) { result is there: use it directly }
     g_attached[i] = CORE.SetCallback(cb);
-    if (!g_attached[i]) { if (!Intact(CORE)) g_ready_torn = 1; }
+    if (!g_attached[i]) { vp_hb_read(0); if (!Intact(CORE)) g_ready_torn = 1; }
   }
 }
 extern "C" void c06k_observer0_inline() { Observe(CB0, 0, true); }
